@@ -131,42 +131,67 @@ func scatter(a *anchors, r *rep, fn, read *ssa.Function) {
 	}()
 	for _, ro := range roles {
 		key := name + "#" + ro.name
-		root, off := e.SliceRoot(ro.arg)
-		mk, isMk := root.(*ssa.MakeSlice)
-		if !isMk || !off.IsZero() {
-			r.Undecide("SYM-STRIDE", key, a.p.Pos(ro.pos), "the "+ro.name+" array is not a make([]T, n) of this function")
-			continue
-		}
-		length := e.Len(mk)
-		if !length.Equal(want3n) {
-			r.Violate("SYM-STRIDE", key, a.p.Pos(mk.Pos()), fmt.Sprintf("the %s array has length %s; three corners per record need %s", ro.name, length, want3n))
-			continue
-		}
 		type site struct {
-			st  sx.StoreAt
+			val ssa.Value // value stored / appended
+			pos token.Pos
+			blk *ssa.BasicBlock
 			idx sx.Poly
 			ivs []*sx.IV
 		}
 		var sites []site
 		bad := false
-		for _, st := range e.SliceStores() {
-			rt, o := e.SliceRoot(st.Ad.Slice)
-			if rt != root {
+		var length sx.Poly
+		var mkPos token.Pos
+		root, off := e.SliceRoot(ro.arg)
+		mk, isMk := root.(*ssa.MakeSlice)
+		if app, isApp := appendForm(e, ro.arg); isApp {
+			// append idiom: s := make([]T, 0, cap); for … { s = append(s, e0, …, e(m-1)) } — element j of
+			// iteration t has the virtual subscript m·t + j; the final length is m·trip
+			if app.why != "" && app.violation {
+				r.Violate("SYM-STRIDE", key, a.p.Pos(ro.pos), "the "+ro.name+" array is built by append, but "+app.why)
 				continue
 			}
-			ivs, ok := e.EnclosingIVs(st.St.Block())
-			if !ok || len(ivs) == 0 {
-				r.Undecide("SYM-STRIDE", key, a.p.Pos(st.St.Pos()), "an element is stored outside a canonical counted loop")
-				bad = true
-				break
+			if app.why != "" {
+				r.Undecide("SYM-STRIDE", key, a.p.Pos(ro.pos), "the "+ro.name+" array is built by append, but "+app.why)
+				continue
 			}
-			sites = append(sites, site{st, e.Int(st.Ad.SliceIdx).Add(o), ivs})
+			m := int64(len(app.elems))
+			t := sx.Sym(app.iv.Sym).Sub(app.iv.Lo)
+			for j, el := range app.elems {
+				sites = append(sites, site{val: el.val, pos: el.call.Pos(), blk: el.call.Block(), idx: t.MulConst(m).Add(sx.Const(int64(j))), ivs: app.ivs})
+			}
+			length = app.iv.Trip().MulConst(m)
+			mkPos = app.mk.Pos()
+		} else {
+			if !isMk || !off.IsZero() {
+				r.Undecide("SYM-STRIDE", key, a.p.Pos(ro.pos), "the "+ro.name+" array is neither a make([]T, n) filled by indexed stores nor a make([]T, 0, n) filled by append in this function")
+				continue
+			}
+			length = e.Len(mk)
+			mkPos = mk.Pos()
+			for _, st := range e.SliceStores() {
+				rt, o := e.SliceRoot(st.Ad.Slice)
+				if rt != root {
+					continue
+				}
+				ivs, ok := e.EnclosingIVs(st.St.Block())
+				if !ok || len(ivs) == 0 {
+					r.Undecide("SYM-STRIDE", key, a.p.Pos(st.St.Pos()), "an element is stored outside a canonical counted loop")
+					bad = true
+					break
+				}
+				sites = append(sites, site{val: st.St.Val, pos: st.St.Pos(), blk: st.St.Block(), idx: e.Int(st.Ad.SliceIdx).Add(o), ivs: ivs})
+			}
+		}
+		if !bad && !length.Equal(want3n) {
+			r.Violate("SYM-STRIDE", key, a.p.Pos(mkPos), fmt.Sprintf("the %s array ends up with %s elements; three corners per record need %s", ro.name, length, want3n))
+			continue
 		}
 		if bad {
 			continue
 		}
 		if len(sites) == 0 {
-			r.Violate("SYM-STRIDE", key, a.p.Pos(mk.Pos()), "the "+ro.name+" array is never filled")
+			r.Violate("SYM-STRIDE", key, a.p.Pos(mkPos), "the "+ro.name+" array is never filled")
 			continue
 		}
 		var idx []sx.Poly
@@ -182,7 +207,7 @@ func scatter(a *anchors, r *rep, fn, read *ssa.Function) {
 				}
 			}
 			if dup {
-				r.Violate("SYM-STRIDE", key, a.p.Pos(s.st.St.Pos()), fmt.Sprintf("element %s is stored twice per iteration", s.idx))
+				r.Violate("SYM-STRIDE", key, a.p.Pos(s.pos), fmt.Sprintf("element %s is stored twice per iteration", s.idx))
 				bad = true
 			}
 			idx = append(idx, s.idx)
@@ -191,17 +216,17 @@ func scatter(a *anchors, r *rep, fn, read *ssa.Function) {
 			continue
 		}
 		if !sameLoop {
-			r.Undecide("SYM-STRIDE", key, a.p.Pos(sites[0].st.St.Pos()), "the array is filled from more than one loop")
+			r.Undecide("SYM-STRIDE", key, a.p.Pos(sites[0].pos), "the array is filled from more than one loop")
 			continue
 		}
 		condStore := false
 		for _, st := range sites {
-			if !everyIteration(st.st.St.Block(), st.ivs) {
+			if !everyIteration(st.blk, st.ivs) {
 				condStore = true
 			}
 		}
 		if condStore {
-			r.Violate("SYM-STRIDE", key, a.p.Pos(sites[0].st.St.Pos()), "an element of the "+ro.name+" array is stored conditionally inside the record loop: some records can be skipped (one output per record, unconditionally)")
+			r.Violate("SYM-STRIDE", key, a.p.Pos(sites[0].pos), "an element of the "+ro.name+" array is stored conditionally inside the record loop: some records can be skipped (one output per record, unconditionally)")
 			continue
 		}
 		res := sx.Cover(idx, sites[0].ivs, length)
@@ -218,30 +243,30 @@ func scatter(a *anchors, r *rep, fn, read *ssa.Function) {
 		}
 		switch {
 		case !res.OK:
-			r.Violate("SYM-STRIDE", key, a.p.Pos(sites[0].st.St.Pos()), "subscripts do not cover the array exactly once: "+res.Why)
+			r.Violate("SYM-STRIDE", key, a.p.Pos(sites[0].pos), "subscripts do not cover the array exactly once: "+res.Why)
 			continue
 		case early:
-			r.Violate("SYM-STRIDE", key, a.p.Pos(sites[0].st.St.Pos()), "the scatter loop can be left early on a success path")
+			r.Violate("SYM-STRIDE", key, a.p.Pos(sites[0].pos), "the scatter loop can be left early on a success path")
 			continue
 		default:
-			r.Hold("SYM-STRIDE", key, a.p.Pos(sites[0].st.St.Pos()), res.Explain)
+			r.Hold("SYM-STRIDE", key, a.p.Pos(sites[0].pos), res.Explain)
 		}
 
 		// per store
 		sort.SliceStable(sites, func(i, j int) bool { return sites[i].idx.ConstPart() < sites[j].idx.ConstPart() })
 		for rank, s := range sites {
-			pos := a.p.Pos(s.st.St.Pos())
+			pos := a.p.Pos(s.pos)
 			switch ro.name {
 			case "indices":
 				k := fmt.Sprintf("%s[+%d]", key, rank)
-				if v := e.Int(s.st.St.Val); v.Equal(s.idx) {
+				if v := e.Int(s.val); v.Equal(s.idx) {
 					r.Hold("SHAPE-2", k, pos, "identity index")
 				} else {
 					r.Violate("SHAPE-2", k, pos, fmt.Sprintf("indices[%s] = %s: the unwelded mesh read back needs identity indices", s.idx, v))
 				}
 			case "position", "normals":
 				sl := sx.NewSlicer(a.inline).WithEnv(e)
-				sl.From(s.st.St.Val, nil, nil)
+				sl.From(s.val, nil, nil)
 				// record ordinal
 				var c int64 = -1
 				recOK := true
@@ -282,7 +307,7 @@ func scatter(a *anchors, r *rep, fn, read *ssa.Function) {
 						}
 						return false
 					}
-					vs.From(s.st.St.Val, nil, nil)
+					vs.From(s.val, nil, nil)
 					if alt := a.valueChanging(vs); alt != "" {
 						r.Violate("SHAPE-2", k, pos, fmt.Sprintf("position[3·i+%d] is not a plain copy of the stored vertex: it passes through %s", c, alt))
 						continue
@@ -304,7 +329,7 @@ func scatter(a *anchors, r *rep, fn, read *ssa.Function) {
 						r.Violate("SHAPE-2", k, pos, fmt.Sprintf("position[3·i+%d] is built from %s (other fields: %v); corner %d of record i is Vertex%d", c, cs, other, want, want))
 					}
 				} else {
-					if j, fbs := normalsStore(a, r, e, k, pos, s.st.St.Val, fr, vertexOrd, normalVar); j != nil && normJoin == nil {
+					if j, fbs := normalsStore(a, r, e, k, pos, s.val, fr, vertexOrd, normalVar); j != nil && normJoin == nil {
 						normJoin, normFallback = j, fbs
 					}
 				}
@@ -1141,4 +1166,138 @@ func fallbackPolarity(a *anchors, e *sx.Env, phi *ssa.Phi, fbs []int, normalVar 
 		}
 	}
 	return sx.TT, ""
+}
+
+// appendForm recognises `s := make([]T, 0, cap); for i … { s = append(s, e0, …) [; s = append(s, …)] }`:
+// the value handed on after the loop is the loop-header phi of the slice, whose
+// initial value is an empty make and whose back-edge value is a chain of appends
+// starting at the phi. elems are the appended values in order.
+type appendElem struct {
+	val  ssa.Value
+	call *ssa.Call
+}
+
+type appendInfo struct {
+	mk    *ssa.MakeSlice
+	iv    *sx.IV
+	ivs   []*sx.IV
+	elems []appendElem
+	why   string // non-empty: append idiom, but a shape the rule does not decide
+	// violation: why describes a decided defect rather than an unrecognised shape
+	violation bool
+}
+
+func appendForm(e *sx.Env, v ssa.Value) (*appendInfo, bool) {
+	phi, ok := v.(*ssa.Phi)
+	if !ok {
+		return nil, false
+	}
+	var loop *ssau.Loop
+	for _, l := range e.Loops() {
+		if l.Header == phi.Block() {
+			loop = l
+		}
+	}
+	if loop == nil {
+		return nil, false
+	}
+	info := &appendInfo{}
+	var latch ssa.Value
+	for i, ed := range phi.Edges {
+		if loop.Blocks[phi.Block().Preds[i]] {
+			if latch != nil && latch != ed {
+				info.why = "the slice is carried around the loop along paths with different appends (a skipped or conditional append)"
+				return info, true
+			}
+			latch = ed
+		} else {
+			root, off := e.SliceRoot(ed)
+			mk, isMk := root.(*ssa.MakeSlice)
+			if !isMk || !off.IsZero() {
+				return nil, false
+			}
+			if l, isC := e.Len(mk).IsConst(); !isC || l != 0 {
+				info.why = "its initial value is not an empty make([]T, 0, n)"
+				return info, true
+			}
+			info.mk = mk
+		}
+	}
+	if latch == nil || info.mk == nil {
+		return nil, false
+	}
+	// chain of appends from the latch value down to the phi
+	var chain []*ssa.Call
+	cur := latch
+	for i := 0; i < 16; i++ {
+		if cur == ssa.Value(phi) {
+			break
+		}
+		c, isCall := cur.(*ssa.Call)
+		if jp, isPhi := cur.(*ssa.Phi); isPhi && !isCall {
+			for _, l := range phiLeaves(jp) {
+				if ac, ok := l.(*ssa.Call); ok && ssau.Builtin(ac) == "append" {
+					info.why = "an append is conditional: some records add no elements (one output per record, unconditionally)"
+					info.violation = true
+					return info, true
+				}
+			}
+		}
+		if !isCall || ssau.Builtin(c) != "append" || len(c.Call.Args) != 2 {
+			if cur == latch && i == 0 {
+				return nil, false
+			}
+			info.why = "the value carried around the loop is not a plain chain of appends onto the previous value"
+			return info, true
+		}
+		chain = append([]*ssa.Call{c}, chain...)
+		cur = c.Call.Args[0]
+	}
+	if cur != ssa.Value(phi) || len(chain) == 0 {
+		info.why = "the appends do not start from the slice of the previous iteration"
+		return info, true
+	}
+	iv := e.IVOfLoop(loop)
+	if iv == nil {
+		info.why = "the loop is not a canonical counted loop"
+		return info, true
+	}
+	info.iv = iv
+	for _, c := range chain {
+		ivs, ok := e.EnclosingIVs(c.Block())
+		if !ok || len(ivs) == 0 || ivs[len(ivs)-1] != iv {
+			info.why = "an append sits in a nested or non-counted loop"
+			return info, true
+		}
+		info.ivs = ivs
+		sl, isSl := c.Call.Args[1].(*ssa.Slice)
+		if !isSl {
+			info.why = "a slice is appended as a whole (append(s, other...))"
+			return info, true
+		}
+		al, isAl := sl.X.(*ssa.Alloc)
+		if !isAl {
+			info.why = "a slice is appended as a whole (append(s, other...))"
+			return info, true
+		}
+		sts := append([]sx.StoreAt{}, e.Stores(al)...)
+		sort.SliceStable(sts, func(i, j int) bool {
+			pi, pj := -1, -1
+			if len(sts[i].Ad.Path) > 0 {
+				pi = sts[i].Ad.Path[0]
+			}
+			if len(sts[j].Ad.Path) > 0 {
+				pj = sts[j].Ad.Path[0]
+			}
+			return pi < pj
+		})
+		for k, st := range sts {
+			if len(st.Ad.Path) != 1 || st.Ad.Path[0] != k {
+				info.why = "the appended values are not a plain argument list"
+				return info, true
+			}
+			info.elems = append(info.elems, appendElem{st.St.Val, c})
+		}
+	}
+	return info, true
 }
